@@ -711,7 +711,9 @@ class Fn:
                         body = body[:pos + 1] + "\n" + spec["body_start"].rstrip("\n") + "\n" + body[pos + 1:]
                 body = body[:pos] + ins + body[pos:]
         # proof blocks at anchors
-        for (anchor, side, text) in self.proofs:
+        for pr in self.proofs:
+            (anchor, side, text) = pr[:3]
+            optional = len(pr) > 3 and pr[3] == "optional"   # a hint tied to one code shape: skipped when that shape is gone
             if anchor in ("@start", "@end"):
                 # position-only anchors: right after the opening brace / right before the closing brace of the body
                 if anchor == "@start":
@@ -722,6 +724,8 @@ class Fn:
                     body = body[:i1] + text.rstrip("\n") + "\n" + body[i1:]
                 continue
             ms = list(re.finditer(anchor, body))
+            if optional and len(ms) == 0:
+                continue
             if len(ms) != 1:
                 raise Drift("%s: proof anchor /%s/ matches %d times" % (where, anchor, len(ms)))
             m = ms[0]
